@@ -48,6 +48,12 @@
 (*            the includer's own <%page args> default; "the context second" *)
 (*            is the context visible AT THE INCLUDE POINT (a top-level def  *)
 (*            called by name runs on context._locals(__M_locals)).          *)
+(*  "incval"  the VALUES: each <%page> argument of the included template is  *)
+(*            given explicitly or not (<%include args=>, include_file(kw...),*) 
+(*            and for comparison a def call through a namespace) and is     *)
+(*            in the context or not, with values truthy / False / 0 / '' /  *)
+(*            [] / None on either side: explicit if GIVEN, whatever its     *)
+(*            value; else the context if PRESENT; else the default.         *)
 (*  "include" an includer (alone, derived of a base, or base of a derived) *)
 (*            includes T (alone or inheriting TB) with args/context        *)
 (*            patterns for T's <%page args="a=0, b=0"/>.                   *)
@@ -160,7 +166,12 @@ Sources == {"args", "render", "assign", "page"}
 IncPositions == {"body", "topdef", "selfdef", "calltag", "nested"}
 IncPosConfigs == {[fam |-> "incpos", pos |-> p, sa |-> x, sb |-> y] :
                     p \in IncPositions, x \in SUBSET Sources, y \in {{}, {"args"}, {"render"}, {"assign"}, {"page"}}}
-Configs == UriConfigs \cup NsConfigs \cup InhConfigs \cup IncConfigs \cup MultiConfigs \cup IncPosConfigs \cup ImportConfigs
+ValClasses == {"truthy", "False", "zero", "empty", "list", "None"}
+Supplied == ValClasses \cup {"absent"}
+IncValConfigs == {[fam |-> "incval", via |-> v, ea |-> x, ca |-> y, eb |-> p[1], cb |-> p[2]] :
+                    v \in {"tag", "call", "nsdef"}, x \in Supplied, y \in Supplied,
+                    p \in {<<"absent", "absent">>, <<"None", "truthy">>, <<"zero", "list">>, <<"absent", "False">>}}
+Configs == IncValConfigs \cup UriConfigs \cup NsConfigs \cup InhConfigs \cup IncConfigs \cup MultiConfigs \cup IncPosConfigs \cup ImportConfigs
 
 InitWith(c) == /\ cfg = c /\ pc = 1 /\ hop = 1 /\ cur = <<>> /\ memo = {} /\ nsmemo = {} /\ coll = {} /\ imp = {} /\ sattr = {} /\ nsctx = <<>> /\ out = <<>> /\ phase = "run"
 Init == /\ cfg \in Configs /\ pc = 1 /\ hop = 1 /\ cur = <<>> /\ memo = {} /\ nsmemo = {} /\ coll = {} /\ imp = {} /\ sattr = {} /\ nsctx = <<>> /\ out = <<>> /\ phase = "run"
@@ -324,6 +335,19 @@ IncludeAt ==
   /\ pc' = 2
   /\ UNCHANGED <<cfg, nsmemo, coll, nsctx, hop, cur, memo, imp, sattr, phase>>
 
+(* ================================================================== family "incval" *)
+(* _kwargs_for_include: an argument is taken from the context only if it is NOT AMONG the explicit ones (membership, not    *)
+(* truthiness) and IS AMONG the context's names (whatever its value there); a def called through a namespace never looks    *)
+(* at the context for its arguments.  A truthy value prints as its side (E explicit, C context), a falsy one as its class.  *)
+ValTok(side, cls) == IF cls = "truthy" THEN side ELSE cls
+Bound(via, e, c) == IF e # "absent" THEN ValTok("E", e)
+                    ELSE IF via # "nsdef" /\ c # "absent" THEN ValTok("C", c) ELSE "default"
+IncludeValues ==
+  /\ phase = "run" /\ cfg.fam = "incval" /\ pc = 1
+  /\ out' = <<"open|T", "arg|a|" \o Bound(cfg.via, cfg.ea, cfg.ca), "arg|b|" \o Bound(cfg.via, cfg.eb, cfg.cb), "close|T">>
+  /\ pc' = 2
+  /\ UNCHANGED <<cfg, nsmemo, coll, nsctx, hop, cur, memo, imp, sattr, phase>>
+
 (* ================================================================== family "multins" *)
 (* the template a namespace of that kind refers to: what self/local are inside its defs.  An inline def is *)
 (* written in the declaring template M itself; a module function has no self.                              *)
@@ -349,11 +373,11 @@ Probe ==
 
 Finished ==
   CASE cfg.fam = "uri" -> pc > Len(cfg.reqs) [] cfg.fam = "nsprec" -> pc > 3
-    [] cfg.fam = "inh" -> hop = 2 /\ pc > cfg.N [] cfg.fam \in {"include", "incpos"} -> pc > 1
+    [] cfg.fam = "inh" -> hop = 2 /\ pc > cfg.N [] cfg.fam \in {"include", "incpos", "incval"} -> pc > 1
     [] cfg.fam = "multins" -> hop = 2 /\ pc > Len(cfg.decl)
     [] cfg.fam = "imports" -> hop = 3
 Finish == /\ phase = "run" /\ Finished /\ phase' = "done" /\ UNCHANGED <<cfg, nsmemo, coll, nsctx, pc, hop, cur, memo, imp, sattr, out>>
-Next == Resolve \/ PopulateImports \/ Calls \/ GenNamespaces \/ Bodies \/ Include \/ IncludeAt \/ PopulateTag \/ TagCalls \/ ReadOthers \/ MakeNamespace \/ Probe \/ Finish
+Next == Resolve \/ PopulateImports \/ Calls \/ GenNamespaces \/ Bodies \/ Include \/ IncludeAt \/ IncludeValues \/ PopulateTag \/ TagCalls \/ ReadOthers \/ MakeNamespace \/ Probe \/ Finish
 Spec == Init /\ [][Next]_vars
 
 (* ------------------------------------------------------------------ the property *)
@@ -415,4 +439,10 @@ IncludeArgsFirst ==
        /\ cfg.pb \in {"args", "both"} => "arg|b|1" \in Toks
        /\ cfg.pa = "ctx" => "arg|a|2" \in Toks
   /\ (Done /\ cfg.fam = "incpos") => ArgFromTokens("a", cfg.sa) /\ ArgFromTokens("b", cfg.sb)
+  (* explicit if GIVEN -- a falsy explicit value is still the explicit value; the context only fills what was not given *)
+  /\ (Done /\ cfg.fam = "incval") =>
+       /\ cfg.ea # "absent" => "arg|a|" \o ValTok("E", cfg.ea) \in Toks
+       /\ cfg.eb # "absent" => "arg|b|" \o ValTok("E", cfg.eb) \in Toks
+       /\ (cfg.ea = "absent" /\ cfg.ca # "absent" /\ cfg.via # "nsdef") => "arg|a|" \o ValTok("C", cfg.ca) \in Toks
+       /\ (cfg.ea = "absent" /\ (cfg.ca = "absent" \/ cfg.via = "nsdef")) => "arg|a|default" \in Toks
 =============================================================================
